@@ -2,6 +2,7 @@
 from __future__ import annotations
 
 import ast
+import re
 
 from ..astx import (un, chain, call_name, paths, params, walk_shallow, single_assignments, inline, enclosing, names_read,
                     inline_self_calls, private_helper_owners, seq)
@@ -22,7 +23,8 @@ INFO = {
                    "nothing evicts cache entries. NOT decided: arbitrary thread interleavings (the code has no lock "
                    "discipline to analyse) and value-level aliasing of coefficient objects between operand and result.",
     "decided": ["C09.name-injective", "C09.token-atomic", "C09.by-name-twin", "C09.exception-atomic", "C09.storage-writers",
-                "C09.numspace-writers", "C09.module-state", "C09.closed-functions", "C10.no-eviction"],
+                "C09.numspace-writers", "C09.module-state", "C09.closed-functions", "C10.no-eviction", "C09.value-memo",
+                "C09.own-operator-dicts", "C01.lazy-eager"],
     "not_decided": ["thread interleavings (clause d)", "aliasing of coefficient objects between operands and results"],
     "assumptions": ["sympy code generation is deterministic for a given cache key"],
 }
@@ -537,6 +539,182 @@ def closed_functions(ctx):
                                  "globals (mutable module state becomes visible to generated functions)", call, module=mname)
                 continue
             classify(inline(call.args[1], defs), c, call, mname, qual, fn, 0)
+
+
+# --------------------------------------------------------------------------- no memo of coefficient-dependent results
+MEMO_DECORATORS = {"cached_property", "functools.cached_property", "lru_cache", "functools.lru_cache", "cache", "functools.cache"}
+# memoised members of MultiVector that read coefficient values, confirmed by reading: each depends only on the SYMBOLIC
+# structure of the coefficients (their classes / free symbols / expressions), which the in-place API (__setitem__,
+# defined for array coefficients only) cannot change
+ACCEPTED_VALUE_MEMOS = {
+    "issymbolic": "class tests on the coefficients only",
+    "free_symbols": "symbols of symbolic coefficients; array coefficients have none",
+    "_callable": "lambdified SYMBOLIC coefficients (calling a multivector substitutes its symbols)",
+}
+
+
+def _value_reads(repo, cls_qual, fn, self_name, depth=0, seen=None):
+    """Does the body of a method (transitively through methods of the same class, bound 3) read the coefficient
+    values of `self`?  Returns a description of the first value read, or None."""
+    seen = seen if seen is not None else set()
+    from ..astx import class_method
+    for n in ast.walk(fn):
+        if isinstance(n, ast.Attribute) and un(n.value) == self_name and n.attr == "_values":
+            return "self._values"
+        if isinstance(n, ast.Call):
+            cn = call_name(n) or ""
+            if isinstance(n.func, ast.Attribute) and un(n.func.value) == self_name:
+                m = n.func.attr
+                if m in ("values", "items"):
+                    return f"self.{m}()"
+                if m in ("keys", "__len__"):
+                    continue
+                callee = class_method(repo, cls_qual, m)
+                if callee is None:
+                    return f"self.{m}(...) (an operator / accessor of the multivector)"
+                if (cls_qual, m) in seen or depth >= 3:
+                    continue
+                seen.add((cls_qual, m))
+                r = _value_reads(repo, cls_qual, callee, params(callee)[0] if params(callee) else "self", depth + 1, seen)
+                if r:
+                    return f"self.{m}() -> {r}"
+            elif any(isinstance(a, ast.Name) and a.id == self_name for a in list(n.args) + [k.value for k in n.keywords]):
+                return f"{cn or un(n.func)}(self, ...) (self is handed to other code)"
+        if isinstance(n, ast.Attribute) and un(n.value) == self_name and isinstance(getattr(n, "_parent", None), ast.Attribute) is False:
+            m = n.attr
+            callee = class_method(repo, cls_qual, m)
+            if callee is not None and any(un(d) in ("property", "cached_property", "functools.cached_property") for d in callee.decorator_list) \
+                    and (cls_qual, m) not in seen and depth < 3:
+                seen.add((cls_qual, m))
+                r = _value_reads(repo, cls_qual, callee, params(callee)[0] if params(callee) else "self", depth + 1, seen)
+                if r:
+                    return f"self.{m} -> {r}"
+            elif callee is None and re.fullmatch(r"e[0-9a-fA-F]*", m):
+                return f"self.{m} (a coefficient)"
+    return None
+
+
+@rule("C09.value-memo", props=["C09", "C07", "C19"], min_instances=5, mutants=[
+    ("norm is memoised per object", ("multivector", "    def norm(self):\n        normsq = self.normsq()\n        return normsq.sqrt()", "    @cached_property\n    def _norm(self):\n        normsq = self.normsq()\n        return normsq.sqrt()\n\n    def norm(self):\n        return self._norm")),
+    ("inverse is memoised per object", ("multivector", "        \"\"\" Inverse of this multivector. \"\"\"\n        return self.algebra.inv(self)", "        \"\"\" Inverse of this multivector. \"\"\"\n        if '_inv' not in self.__dict__:\n            self._inv = self.algebra.inv(self)\n        return self._inv")),
+])
+def value_memo(ctx):
+    """A multivector can be updated in place (x[idx] = y writes into its coefficient arrays), so nothing computed
+    from its coefficient values may be remembered on the object: every memoised member of MultiVector (cached_property,
+    lru_cache / cache, or a method that stores its result in an attribute of self) is classified by what it reads."""
+    repo = ctx.repo
+    cq = "multivector.MultiVector"
+    cls = ctx.cls(cq)
+    if not any(isinstance(st, ast.FunctionDef) and st.name == "__setitem__" for st in cls.body):
+        ctx.note("MultiVector has no __setitem__: no in-place update API, the rule is vacuous")
+    constructors = {"__new__", "__init__", "fromkeysvalues", "frommatrix", "fromsignature", "__setitem__", "__setstate__"}
+    for st in cls.body:
+        if not isinstance(st, ast.FunctionDef):
+            continue
+        self_name = params(st)[0] if params(st) else "self"
+        decos = {un(d).split("(")[0] for d in st.decorator_list}
+        memo = bool(decos & MEMO_DECORATORS)
+        manual = None
+        if not memo and st.name not in constructors:
+            for n in walk_shallow(st):
+                tg = n.targets if isinstance(n, ast.Assign) else [n.target] if isinstance(n, (ast.AugAssign, ast.AnnAssign)) else []
+                for t in tg:
+                    if isinstance(t, ast.Attribute) and un(t.value) == self_name and t.attr not in ("_values", "_keys"):
+                        manual = t.attr
+                    if isinstance(t, ast.Subscript) and un(t.value) == f"{self_name}.__dict__":
+                        manual = un(t.slice)
+                if isinstance(n, ast.Call) and (call_name(n) or "") in ("setattr", "object.__setattr__") and n.args and un(n.args[0]) == self_name:
+                    manual = un(n.args[1]) if len(n.args) > 1 else "?"
+        if not memo and manual is None:
+            continue
+        c = f"{cq}.{st.name}#memo"
+        reads = _value_reads(repo, cq, st, self_name)
+        if reads is None:
+            ctx.ok(c, st, memo="decorator" if memo else f"stores self.{manual}", reads="keys / algebra only")
+        elif st.name in ACCEPTED_VALUE_MEMOS and memo:
+            ctx.ok(c, st, memo="decorator", reads=reads, accepted=ACCEPTED_VALUE_MEMOS[st.name])
+        else:
+            how = "is memoised" if memo else f"stores its result on the object (self.{manual})"
+            ctx.violation(c, f"MultiVector.{st.name} {how} but reads the coefficient values ({reads}): after an in-place update "
+                             f"x[idx] = y of the same object the remembered result is stale, so what an operation returns depends "
+                             f"on what was computed before", st)
+
+
+# --------------------------------------------------------------------------- every algebra owns its operator dictionaries
+@rule("C09.own-operator-dicts", props=["C09", "C02", "C13", "C14"], min_instances=3, mutants=[
+    ("a registry handed to the constructor is kept", ("algebra", "        self.registry = {f.name: f.type(name=f.name, algebra=self, **f.metadata)\n                         for f in fields(self) if 'codegen' in f.metadata}",
+                                                        "        if not self.registry:\n            self.registry = {f.name: f.type(name=f.name, algebra=self, **f.metadata)\n                             for f in fields(self) if 'codegen' in f.metadata}")),
+    ("operator dictionaries are bound to the class, not the instance", ("algebra", "            setattr(self, name, operator_dict)", "            setattr(type(self), name, operator_dict)")),
+    ("operator dictionaries are created without their algebra", ("algebra", "f.type(name=f.name, algebra=self, **f.metadata)", "f.type(name=f.name, algebra=None, **f.metadata)")),
+])
+def own_operator_dicts(ctx):
+    """After construction - also when `registry` / `numspace` were handed to the constructor, as
+    dataclasses.replace(alg, ...) does - every operator field of the algebra is an operator dictionary of the
+    declared class, created for THIS algebra object under the field's name, and the same object is in `registry`."""
+    from .c01 import build_algebra
+    from .c14 import dataclass_fields
+    from ..absint import PyFunc, Raised, ClassRef, Obj
+    from ..astx import NoValue
+    repo = ctx.repo
+    fn = ctx.func("algebra.Algebra.__post_init__")
+    flds = dataclass_fields(repo, "algebra.Algebra")
+    opfields = {f.attrs["name"]: f for f in flds if "codegen" in f.attrs["metadata"]}
+    if len(opfields) < 20:
+        raise Unknown("algebra.Algebra", f"only {len(opfields)} operator fields recognised", fn)
+    for label in ("fresh", "registry of another algebra (dataclasses.replace)", "partial foreign registry"):
+        c = f"algebra.Algebra.__post_init__#{label}"
+        foreign_alg = Obj("Algebra", {"fmt": "<another algebra>"})
+        foreign = {n: Obj(f.attrs["type"].name, {"name": n, "algebra": foreign_alg, "fmt": f"<foreign {n}>"}) for n, f in opfields.items()}
+        init = {} if label == "fresh" else dict(foreign) if "replace" in label else {"gp": foreign["gp"], "inv": foreign["inv"]}
+        created = []
+
+        def hook(cname, args, kwargs, _created=created):
+            if cname in {f.attrs["type"].name for f in opfields.values()}:
+                o = Obj(cname, dict(kwargs, fmt=f"<{cname} {kwargs.get('name')}>"))
+                _created.append(o)
+                return o
+            return None
+        try:
+            it, alg = build_algebra(repo, p=2, q=1, _prepare=lambda it_, alg_: (
+                it_.standins.__setitem__("dataclasses.fields", PyFunc(lambda o: list(flds), "fields", True)),
+                alg_.attrs.__setitem__("registry", dict(init)),
+                alg_.attrs.__setitem__("numspace", {"stale_name": Obj("function", {"fmt": "<stale>"})} if init else {}),
+                setattr(it_, "class_call_hook", _chain_hook(it_.class_call_hook, hook))))
+        except NoValue as exc:
+            raise Unknown(c, str(exc), fn)
+        except Raised as r:
+            ctx.violation(c, f"constructing the algebra raises {r.name}", fn)
+            continue
+        problems = []
+        reg = alg.attrs.get("registry")
+        if not isinstance(reg, dict):
+            raise Unknown(c, f"registry is {reg!r}", fn)
+        for n, f in opfields.items():
+            od = alg.attrs.get(n)
+            if not isinstance(od, Obj) or od.kind != f.attrs["type"].name:
+                problems.append(f"field {n} holds {od!s}, not a {f.attrs['type'].name}")
+            elif od.attrs.get("algebra") is not alg:
+                problems.append(f"the operator dictionary {n} belongs to {od.attrs.get('algebra')!s}, not to the algebra being constructed "
+                                f"(its code is generated with the other algebra's sign table and options)")
+            elif od.attrs.get("name") != n:
+                problems.append(f"the operator dictionary in field {n} is named {od.attrs.get('name')!r}")
+            elif reg.get(n) is not od:
+                problems.append(f"registry[{n!r}] is not the operator dictionary bound to the field {n}")
+            if len(problems) >= 3:
+                break
+        if problems:
+            ctx.violation(c, "; ".join(problems), fn)
+        else:
+            ctx.ok(c, fn, operator_fields=len(opfields))
+
+
+def _chain_hook(prev, hook):
+    def chained(cname, args, kwargs):
+        r = hook(cname, args, kwargs)
+        if r is not None:
+            return r
+        return prev(cname, args, kwargs) if prev is not None else None
+    return chained
 
 
 # --------------------------------------------------------------------------- no hidden module-level state
